@@ -15,11 +15,11 @@ BOUNDARY = [0, 1, 2, 0x7f, 0x80, 0x3fff, 0x4000, 2**32 - 1, 2**32, 2**40, 2**55,
 OVERLONG = [bytes([0x80] * 9 + [0x01]), bytes([0xff] * 9 + [0x7f]), bytes([0xff] * 10 + [0x01]), bytes([0x80] * 12), bytes([0x80, 0x80, 0x00])]
 
 
-def run_worker(lines, config='default'):
+def run_worker(lines, config='default', objfile=None):
     """runs the isolated worker on the lines, restarting it after a crash; returns one classification per line"""
     res = [None] * len(lines); start = 0
     while start < len(lines):
-        p = subprocess.run([vf.harness_bin('worker', config), 'run'], input='\n'.join(lines[start:]) + '\n', capture_output=True, text=True, timeout=3600)
+        p = subprocess.run([vf.harness_bin('worker', config), 'run'] + ([objfile] if objfile else []), input='\n'.join(lines[start:]) + '\n', capture_output=True, text=True, timeout=3600)
         last_begin = None; done = 0
         for l in p.stdout.split('\n'):
             if l.startswith('BEGIN '): last_begin = int(l.split(' ')[1])
@@ -59,6 +59,10 @@ def mutants(kind, b, rng, quick):
         if quick and i > 60 and i % 3: continue
         for v in BOUNDARY: out.append(('count/length field', b[:i] + leb(v) + b[i + 1:]))
         for o in OVERLONG: out.append(('over-long LEB128', b[:i] + o + b[i + 1:]))
+    # a trailing length-prefixed field re-framed consistently: position i read as its length, set to v, exactly v bytes kept
+    for i in range(max(0, n - 400), n):
+        for v in range(0, 18):
+            if i + 1 + v <= n: out.append(('trailing field re-framed', b[:i] + leb(v) + b[i + 1:i + 1 + v]))
     # trailing garbage and random strings
     out.append(('trailing byte', b + b'\x00')); out.append(('trailing bytes', b + bytes(40)))
     for _ in range(60 if quick else 2000):
@@ -78,6 +82,7 @@ def run(ctx):
     for cfg in ('default', 'alt'):
         gen = subprocess.run([vf.harness_bin('worker', cfg), 'gen'], capture_output=True, text=True).stdout.strip().split('\n')
         objs = [(l.split(' ')[0], bytes.fromhex(l.split(' ')[1])) for l in gen]
+        objfile = f'{vf.ROOT}/.tmp/c14-objects-{cfg}.txt'; vf.os.makedirs(vf.ROOT + '/.tmp', exist_ok=True); open(objfile, 'w').write('\n'.join(gen) + '\n')
         if cfg == 'alt': objs = [o for o in objs if o[0] in ('USK', 'ENC', 'HDR')][:4]       # the alternative build: the objects whose layout depends on the sizes
         cases = []
         if cfg == 'default': cases += [(l.split(' ')[0], 'corpus', bytes.fromhex(l.split(' ')[1])) for l in corpus]
@@ -87,7 +92,7 @@ def run(ctx):
         shards = [list(range(i, len(lines), nshard)) for i in range(nshard)]
         res = [None] * len(lines)
         with concurrent.futures.ThreadPoolExecutor(nshard) as ex:
-            for idx, r in zip(shards, ex.map(lambda idx: run_worker([lines[i] for i in idx], cfg), shards)):
+            for idx, r in zip(shards, ex.map(lambda idx: run_worker([lines[i] for i in idx], cfg, objfile), shards)):
                 for i, x in zip(idx, r): res[i] = x
         # model prediction (extracted WireAlloc readers, repaired mode)
         mres = vf.run_sharded(vf.OCAML + '/adriver', [[l] for l in lines], args=['fixed', cfg], timeout=3000)
